@@ -293,31 +293,45 @@ def d4_neighbour_angle(chk, repo):
     chk.rule("C19.D4", "neighbouring-cell angle: slices [:-1] and [1:] on the axis named by `direction` only; the result region is "
                        "shrunk by cell/2 on both sides of that axis only; angle = arccos(clip(dot, -1, 1)) of the orientation field")
     v = FV(repo, T + "neighbouring_cell_angle", param_types=PT)
-    loops = [s for s in v.stmts() if isinstance(s, ast.For)]
-    chk.require(len(loops) == 1, "neighbouring_cell_angle: loop vanished")
-    lp = loops[0]
     fo = v.spec("field.orientation")
-    chk.ob(T + "neighbouring_cell_angle::loop", v.eq(v.term(lp.iter, at=lp), v.spec("o.mesh.region.dims", env={"o": fo})), "C19.D4",
-           "the loop must visit the mesh dims in order", v.f, lp)
-    br = [s for s in lp.body if isinstance(s, ast.If)]
-    ok = False
-    if len(br) == 1:
-        d = each(v, v.term(lp.iter, at=lp))
-        cond_ok = v.eq(v.ev.term(br[0].test, at=br[0]), v.spec("d == direction", env={"d": d}))
-        from .c07 import appends
-        ya = [(nm, t) for nm, s_, t in appends(v, br[0].body)]
-        na = [(nm, t) for nm, s_, t in appends(v, br[0].orelse)]
-        yes = {v.show(t): nm for nm, t in ya}
-        want_yes = [v.spec("slice(-1)"), v.spec("slice(1, None)"), v.spec("getattr(o.mesh, f'd{d}') / 2.0", env={"o": fo, "d": d})]
-        want_no = [v.spec("slice(None)"), v.spec("slice(None)"), v.ctx.const(0)]
-        ok_y = len(ya) == 3 and all(any(v.eq(t, w) for nm, t in ya) for w in want_yes) and len({nm for nm, t in ya}) == 3
-        ok_n = len(na) == 3 and sorted(v.show(t) for nm, t in na) == sorted(v.show(w) for w in want_no) and \
-            {nm for nm, t in na} == {nm for nm, t in ya}
-        # the list that gets slice(-1) in the direction must be the first operand, slice(1,None) the second (or vice versa) -
-        # both orders give the same dot product; the delta list must be the one used for p1/p2
-        ok = cond_ok and ok_y and ok_n
-    chk.ob(T + "neighbouring_cell_angle::slices-on-direction-only", ok, "C19.D4",
-           "along `direction`: slice(-1) / slice(1, None) and half a cell; along every other axis: slice(None) and 0", v.f, lp)
+    news = cm.returned_news(v)
+    chk.require(news, "neighbouring_cell_angle: no Field construction")
+    # decided on the values that reach the einsum and the result mesh (however the three per-axis sequences are built):
+    # along `direction` slice(-1) / slice(1, None) and half a cell, along every other axis slice(None) and 0
+    env = {"o": fo}
+    want_one = v.spec("[slice(-1) if d == direction else slice(None) for d in o.mesh.region.dims]", env=env)
+    want_two = v.spec("[slice(1, None) if d == direction else slice(None) for d in o.mesh.region.dims]", env=env)
+    want_delta = v.spec("[getattr(o.mesh, f'd{d}') / 2.0 if d == direction else 0 for d in o.mesh.region.dims]", env=env)
+
+    def unwrap(t):
+        """the sequence inside (*X,) / tuple(X) / list(X)"""
+        for _ in range(3):
+            h = v.ctx.head_of(t)
+            if h and h[0] == "tuple" and len(v.ctx.args_of(t)) == 1 and (v.ctx.head_of(v.ctx.args_of(t)[0]) or ("",))[0] == "star":
+                t = v.ctx.args_of(v.ctx.args_of(t)[0])[0]
+            elif h and h[0] == "call" and h[1] in ("tuple", "list") and len(v.ctx.args_of(t)) == 1:
+                t = v.ctx.args_of(t)[0]
+            else:
+                break
+        return t
+    idx = []
+    for a_id in sorted(v.ctx.all_atoms(news[0][1].get("value")) if news[0][1].get("value") is not None else ()):
+        hd, ar = v.ctx.atoms[a_id]
+        if hd[0] == "call" and hd[1] == "np.einsum" and len(ar) >= 3:
+            for x in ar[1:3]:
+                if (v.ctx.head_of(x) or ("",))[0] == "sub":
+                    idx.append(unwrap(v.ctx.args_of(x)[1]))
+            break
+    ok_s = len(idx) == 2 and ((v.eq(idx[0], want_one) and v.eq(idx[1], want_two)) or
+                              (v.eq(idx[0], want_two) and v.eq(idx[1], want_one)))
+    d_m = decode_new(repo, v.ctx, news[0][1].get("mesh")) if news[0][1].get("mesh") is not None else None
+    ok_d = False
+    if d_m and d_m[1].get("p1") is not None:
+        ok_d = v.eq(r_sub(d_m[1].get("p1"), v.spec("field.mesh.region.pmin")), want_delta) or \
+            v.eq(unwrap(r_sub(d_m[1].get("p1"), v.spec("field.mesh.region.pmin"))), want_delta)
+    chk.ob(T + "neighbouring_cell_angle::slices-on-direction-only", ok_s and ok_d, "C19.D4",
+           "along `direction`: slice(-1) / slice(1, None) and half a cell; along every other axis: slice(None) and 0 "
+           f"[einsum subscripts {'ok' if ok_s else 'differ'}, half-cell list {'ok' if ok_d else 'differs'}]", v.f, news[0][0])
     news = cm.returned_news(v)
     chk.require(news, "neighbouring_cell_angle: no Field construction")
     r, a = news[0]
